@@ -140,6 +140,12 @@ open Py
 @[simp] theorem getitem_list_one (x y : PyVal) (l : List PyVal) : getitem (.list (x :: y :: l)) (.int 1) = .ok y := by
   simp [getitem, asInt, normIndex]
 
+@[simp] theorem getitem_tuple_zero (x : PyVal) (l : List PyVal) : getitem (.tuple (x :: l)) (.int 0) = .ok x := by
+  simp [getitem, asInt, normIndex]
+
+@[simp] theorem getitem_tuple_one (x y : PyVal) (l : List PyVal) : getitem (.tuple (x :: y :: l)) (.int 1) = .ok y := by
+  simp [getitem, asInt, normIndex]
+
 theorem clampBound_nat (n d k : Nat) : clampBound n d (.int k) = .ok (min k n) := by
   simp [clampBound, asInt]
 
@@ -153,6 +159,15 @@ theorem getslice_list_from (l : List PyVal) (k : Nat) :
   by_cases h : k ≤ l.length
   · rw [Nat.min_eq_left h]
   · rw [Nat.min_eq_right (by omega), List.drop_of_length_le (by omega), List.drop_of_length_le (by omega)]
+
+/-- `t[:k]` -/
+theorem getslice_tuple_to (l : List PyVal) (k : Nat) :
+    getslice (.tuple l) .none (.int k) = .ok (.tuple (l.take k)) := by
+  simp only [getslice, clampBound_nat, clampBound_none, ok_bind, pure_ok, sliceList, List.drop_zero]
+  congr 2
+  by_cases h : k ≤ l.length
+  · rw [Nat.min_eq_left h]
+  · rw [Nat.min_eq_right (by omega), List.take_of_length_le (by omega), List.take_of_length_le (by omega)]
 
 /-- `[x] * n` -/
 theorem mul_singleton (x : PyVal) (n : Int) : mul (.list [x]) (.int n) = .ok (.list (List.replicate n.toNat x)) := by
@@ -178,5 +193,62 @@ theorem chain_from_iterable_lists (ls : List (List PyVal)) :
     | nil => rfl
     | cons a as ih => simp [List.mapM_cons, ih]
   rw [this]; rfl
+
+end PyRt
+
+namespace PyRt
+open Py
+
+@[simp] theorem reversed_tuple (l) : reversed (.tuple l) = .ok (.iter l.reverse) := by rfl
+@[simp] theorem reversed_list (l) : reversed (.list l) = .ok (.iter l.reverse) := by rfl
+@[simp] theorem tuple_list (l) : tuple_ (.list l) = .ok (.tuple l) := by rfl
+@[simp] theorem tuple_tuple (l) : tuple_ (.tuple l) = .ok (.tuple l) := by rfl
+@[simp] theorem list_tuple (l) : list_ (.tuple l) = .ok (.list l) := by rfl
+
+theorem dropwhile_iter (f : PyVal → M PyVal) (p : PyVal → Bool) (l : List PyVal)
+    (h : ∀ x ∈ l, f x = .ok (.bool (p x))) : dropwhile f (.iter l) = .ok (.iter (l.dropWhile p)) := by
+  simp [dropwhile, iterate, dropWhileM_ok f p l h]
+
+theorem genexp_ok (f : PyVal → M PyVal) (g : PyVal → PyVal) (xs : PyVal) (l : List PyVal)
+    (hx : iterate xs = .ok l) (h : ∀ x ∈ l, f x = .ok (g x)) : genexp f xs = .ok (.iter (l.map g)) := by
+  simp [genexp, hx, mapM_ok f g l h]
+
+@[simp] theorem className_obj (c fs) : className (.obj c fs) = c := by rfl
+@[simp] theorem getattr_obj (c fs n) : getattr (.obj c fs) n =
+    (match lookupField fs n with | some x => .ok x | Option.none => .error attributeError) := by rfl
+
+end PyRt
+
+namespace PyRt
+open Py
+
+@[simp] theorem format_nat (n : Nat) : format (.int (n : Int)) = .ok (dec n) := by
+  simp [format]
+
+@[simp] theorem format_str (s : Str) : format (.str s) = .ok s := by rfl
+@[simp] theorem str_nat (n : Nat) : str_ (.int (n : Int)) = .ok (.str (dec n)) := by simp [str_]
+@[simp] theorem str_str (s : Str) : str_ (.str s) = .ok (.str s) := by rfl
+
+theorem join_nil (l : List Str) : Py.join [] l = l.flatten := by
+  induction l with
+  | nil => rfl
+  | cons x xs ih =>
+    cases xs with
+    | nil => simp [Py.join]
+    | cons y ys => simp only [Py.join, List.append_nil, List.flatten_cons] at ih ⊢; rw [ih]
+
+/-- `"".join(parts)` for a list of strings -/
+theorem str_join_empty_list (l : List Str) : str_join (.str []) (.list (l.map .str)) = .ok (.str l.flatten) := by
+  simp [str_join, joinStrs_strs, join_nil]
+
+theorem str_join_iter (sep : Str) (l : List Str) : str_join (.str sep) (.iter (l.map .str)) = .ok (.str (Py.join sep l)) := by
+  simp [str_join, joinStrs_strs]
+
+theorem str_join_list (sep : Str) (l : List Str) : str_join (.str sep) (.list (l.map .str)) = .ok (.str (Py.join sep l)) := by
+  simp [str_join, joinStrs_strs]
+
+@[simp] theorem lookupField_cons (k : String) (v : PyVal) (rest : List (String × PyVal)) (n : String) :
+    lookupField ((k, v) :: rest) n = if k == n then some v else lookupField rest n := by rfl
+@[simp] theorem lookupField_nil (n : String) : lookupField [] n = Option.none := by rfl
 
 end PyRt
